@@ -57,6 +57,7 @@ type EngineDef struct {
 	Exclude     []string          `json:"exclude_sites,omitempty"`
 	ExtraYield  []string          `json:"extra_yield,omitempty"`
 	Discipline  bool              `json:"lock_discipline,omitempty"`    // lock-discipline oracle: a write to receiver state while only a read lock of that receiver is held
+	SplitRMW    bool              `json:"split_rmw,omitempty"`          // writes to receiver state outside an exclusive lock of the receiver are scheduling points; read-modify-write statements are split (implies lock_discipline)
 	AfterUnlock bool              `json:"yield_after_unlock,omitempty"` // scheduling point after every explicit Unlock()/RUnlock() statement
 	PerfStub    bool              `json:"perf_stub,omitempty"`
 	Props       []string          `json:"props"`
@@ -180,7 +181,7 @@ func build(e *EngineDef, wd string, patch string) (string, *instrStats, error) {
 	}
 	instDir := filepath.Join(wd, "inst")
 	_ = os.MkdirAll(instDir, 0o755)
-	st, err := instrumentAll(repoDir, instDir, e.Instrument, e.Exclude, e.ExtraYield, e.AfterUnlock, e.Discipline, resolve, overlay)
+	st, err := instrumentAll(repoDir, instDir, e.Instrument, e.Exclude, e.ExtraYield, e.AfterUnlock, e.Discipline, e.SplitRMW, resolve, overlay)
 	if err != nil {
 		return "", nil, err
 	}
